@@ -70,7 +70,7 @@ def compare_values(t, exp_vals, got, where, raw_ts=False):
             return ['%s: result not iterable: %r' % (where, type(got))]
         if g != list(exp_vals):
             return ['%s: strings differ: got %r expected %r' % (where, g[:6], list(exp_vals)[:6])]
-        if isinstance(got, np.ndarray) and got.dtype != np.dtype('O'):
+        if isinstance(got, np.ndarray) and len(got) and got.dtype != np.dtype('O'):
             return ['%s: string data dtype %s, expected object' % (where, got.dtype)]
         return []
     if t == 'ts':
